@@ -196,7 +196,9 @@ func classify(body []byte) (class string, unmarshals bool) {
 		}
 		if f.num >= 100 {
 			if f.wire == 2 {
-				exts[f.num] = f.b
+				// a repeated occurrence of a message field is merged: the
+				// decoder sees the concatenation of the payloads
+				exts[f.num] = append(append([]byte(nil), exts[f.num]...), f.b...)
 			} else {
 				badExt[f.num] = true
 			}
